@@ -59,6 +59,18 @@ CHECKS.update({
             "Bounded to n <= 8 ('for every n' cannot be made symbolic): shape, identity full coding, coefficient matrix = inverse, zero sums, dense = sparse, equality with the standard definitions, invertibility (solver); encoding of data = indicator x coding for all values of an interacting numeric column, incl. reference levels, explicit level lists, absent levels and null rows (3-4 levels).",
             "n <= 8; label types str/int/mixed; pipeline part on 3 (4 with explicit lists) levels; evidence separates ground from solver-discharged obligations.",
             "DESIGN.md §3 C11"),
+    "C09": ("SR+CH", SR_TECH + "; CrossHair exploration of _enforce_structure over name-equality patterns",
+            "Bounded solver-checked: on every path and for all values, a spec recorded with a categorical factor raises FactorEncodingError when that column arrives as a (symbolic) numeric vector, and vice versa (ground); unseen levels leave names/shape unchanged, are announced with DataMismatchWarning and leave all other cells unchanged for all numeric values; _enforce_structure either raises FactorEncodingError or yields exactly the recorded columns in recorded order.",
+            "8 formulas, 7 rows; absent levels are exercised in C04; variables inside transform calls (poly(a,2)) fail earlier with FactorEvaluationError and are not counted.",
+            "DESIGN.md §3 C09"),
+    "C18": ("SR", SR_TECH,
+            "PARTIAL (hash-seed leg outside). Bounded solver-checked: for histories of <=3 calls from {model_matrix, spec reuse, unmaterialized-spec use, Formula method} x {D1, D2} over shared formula/spec objects with symbolic data, each call's result equals, cell by cell for all values, the same call made first on fresh objects; input arrays, frames, formula and every previously obtained spec's state are unchanged after every call.",
+            "PYTHONHASHSEED is a per-process constant of the C runtime and cannot be a symbolic variable; not addressed. 5 formulas, 7 rows, histories <= 3.",
+            "DESIGN.md §3 C18"),
+    "C20": ("SR+CH", SR_TECH + "; term-level structure by CrossHair enumeration of factor subsets / wrt tuples",
+            "Bounded solver-checked: for term families (<=3 terms from a 12-term multilinear menu incl. categorical interactions and literal scalings) and wrt tuples of <=2 variables, every non-zero derivative term's materialised columns equal the iterated finite difference of the original term's columns for ALL data and ALL steps h != 0, zero derivatives have identically vanishing differences, and the number/order of terms is preserved.",
+            "use_sympy=True not available (sympy absent from /venv); multilinear menu only.",
+            "DESIGN.md §3 C20"),
 })
 
 NOT_APPLICABLE = {
